@@ -222,8 +222,8 @@ def run_range_table(ctx, binary, jobs, results, sema):
         sig = {"kind": "range-table", "what": m["kind"], "type": m["t"], "typeclass": typeclass(m["t"]), "dev": dev, "via": m["via"]}
         msg = "%s  %s: spec=%s  impl(%s)=%s" % (row_desc(row), m["kind"] + ("(%d)" % m["x"] if m["kind"] == "contains" else ""),
                                                m["expect"], m["via"], m["got"])
-        if m.get("gotseq"):
-            msg += " %s" % m["gotseq"][:12]
+        if m["kind"] == "iter" and m["got"] in ("ok", "runaway"):
+            msg += " %s" % (m.get("gotseq") or [])[:12]
         ctx.report(sig, msg + "   [deviation %s]" % dev, {"row": row, "mismatch": m})
     ok_rows = [r for r in rows if r["ok"]]
     nontrivial = {(r["t"], r["s"], r["e"], r["h"], r["p"]) for r in ok_rows if len(r["seq"]) >= 2}
@@ -318,7 +318,7 @@ def check_C21(ctx):
         "exhaustive": True,
         "model_instances": {t: {"distinct_states": r.distinct, "transitions": r.generated} for t, r in mc.items() if t.startswith("mc-")},
         "table_rows": len(rows), "table_rows_constructed": t_ok, "table_loops_run": tsum["iterations"],
-        "table_contains_evaluations": tsum["contains_evals"], "table_contains_skipped_in_quick_tier": tsum["contains_skipped"],
+        "table_contains_evaluations": tsum["contains_evals"], "table_contains_not_evaluated_predicted_failures": tsum["contains_skipped"],
         "table_constructor_rejections_observed": tsum["ctor_rejections"],
         "scripts_executed": tsum["scripts"] + wsum["scripts"],
         "wide_ranges": wsum["cases"], "wide_events_judged_by_tlc": judged, "wide_events_per_type": wsum["per_type"], "tlc_judge_chunks": nchunks,
@@ -327,7 +327,7 @@ def check_C21(ctx):
         "4-bit-like instances are exhaustive over start/end/step; the 8-bit instances use boundary-biased argument sets (RangeIterMC) "
         "and all 256 needles; wider types are sampled near the bounds (seeded) with at most 40 members per range",
         "a for-in loop that yields more than 300 elements of an 8-bit type (or 8 more than the range has members) is recorded as runaway",
-        "in the quick tier, needles for which a named deviation predicts a failing contains() are sampled (6 per row) because each needs its own script",
+        "needles for which a named deviation predicts a failing contains() are sampled (6 per row quick, 24 thorough) because each needs its own script",
     ])
 
 
@@ -561,6 +561,78 @@ def check_C16(ctx):
         "sources are sampled (spec-defined sets around every target bound + seeded random), not exhaustive",
         "overflow vs. underflow is not distinguished (the property allows either)",
     ])
+
+
+# ================================================================================================ replay
+def _replay_judge(ctx, files, module, cfg, tp):
+    r = ctx.tlc(files + [tp], module, cfg, workers=1, tag="replay")
+    return {v["k"]: v for v in r.json_lines()}
+
+
+def replay_C15(ctx, obj):
+    """bin/vcheck C15 --replay f: re-execute the recorded case and let TLC judge it again."""
+    _env()
+    binary = ctx.build("numfix")
+    ev = obj["replay"]
+    tp = os.path.join(ctx.work, "trace.ndjson")
+    ctx.run([binary, "fxone", ev["t"], ev["op"], ev["rule"] or "-", str(zval(ev["a"])), str(zval(ev["b"])), str(zval(ev["c"])), tp])
+    events = read_ndjson(tp)
+    bad = _replay_judge(ctx, FXBASE + ["num/FixedPointJudge.tla", "num/FixedPointJudge.cfg"], "FixedPointJudge", "FixedPointJudge.cfg", tp)
+    scale = 24 if "128" in ev["t"] else 8
+    rc = 0
+    for e in events:
+        v = bad.get(e["k"])
+        print("REPLAY %s: %s" % ("REJECTED by the specification (%s)" % v["cls"] if v else "accepted", fx_desc(e, scale)))
+        rc = rc or (1 if v else 0)
+    return rc
+
+
+def replay_C16(ctx, obj):
+    _env()
+    binary = ctx.build("numfix")
+    ev = obj["replay"]
+    tp = os.path.join(ctx.work, "trace.ndjson")
+    ctx.run([binary, "cvone", ev["s"], ev["u"], ev["rule"] or "-", str(zval(ev["a"])), tp])
+    events = read_ndjson(tp)
+    bad = _replay_judge(ctx, CVBASE + ["num/ConvertJudge.tla", "num/ConvertJudge.cfg"], "ConvertJudge", "ConvertJudge.cfg", tp)
+    scale = {t: (24 if "128" in t else 8) if "Fix" in t else 0 for t in (ev["s"], ev["u"])}
+    rc = 0
+    for e in events:
+        v = bad.get(e["k"])
+        print("REPLAY %s: %s" % ("REJECTED by the specification (%s, deviation %s)" % (v["cls"], v["dev"]) if v else "accepted", cv_desc(e, scale)))
+        rc = rc or (1 if v else 0)
+    return rc
+
+
+def replay_C21(ctx, obj):
+    _env()
+    binary = ctx.build("numfix")
+    rp = obj["replay"]
+    rc = 0
+    if obj.get("sig", {}).get("kind") == "range-table":
+        row = rp["row"]
+        inp, outp = os.path.join(ctx.work, "row.ndjson"), os.path.join(ctx.work, "row.out.ndjson")
+        write_ndjson(inp, [row])
+        ctx.run([binary, "rangetable", inp, outp], env={"VERIF_TIER": "thorough"})
+        _, mism = split_out(ctx, outp, "rangetable")
+        print("REPLAY %s: spec row: constructed=%s sequence=%s members=%d" % (row_desc(row), row["ok"], row["seq"], len(row["mem"])))
+        for m in mism:
+            print("REPLAY   MISMATCH %s%s via %s: spec=%s impl=%s   [deviation %s]" % (
+                m["kind"], "(%d)" % m["x"] if m["kind"] == "contains" else "", m["via"], m["expect"][:200], m["got"], classify_table_mismatch(row, m)))
+            rc = 1
+        if not mism:
+            print("REPLAY   no disagreement")
+        return rc
+    ev = rp
+    tp = os.path.join(ctx.work, "trace.ndjson")
+    ctx.run([binary, "rangeone", ev["t"], str(zval(ev["start"])), str(zval(ev["end"])), "1" if ev["has"] else "0", str(zval(ev["arg"])), tp])
+    events = read_ndjson(tp)
+    bad = _replay_judge(ctx, BIG + ["num/RangeIterJudge.tla", "num/RangeIterJudge.cfg"], "RangeIterJudge", "RangeIterJudge.cfg", tp)
+    for e in events:
+        v = bad.get(e["k"])
+        print("REPLAY %s: %s" % ("REJECTED by the specification %s" % [(p["what"], p["dev"]) for p in v["ps"]] if v else "accepted", range_event_desc(e)))
+        rc = rc or (1 if v else 0)
+    return rc
 
 
 META = {
